@@ -146,6 +146,7 @@ def parseStmts (s : String) : Option (List Stmt) :=
 def parseEnd (s : String) : Option End :=
   match s with
   | "ok" => some .ok | "panic" => some .panic | "panicerr" => some .panic | "panicnil" => some .panic
+  | "goexit" => some .ok | "panicnil1" => some .ok      -- outside the quantifier: handled apart (`Op.oq`)
   | _ =>
     match s.splitOn ":" with
     | ["err", c] => (parseCls c).map End.err
@@ -159,6 +160,7 @@ structure Op where
   f   : Faults
   b   : Body
   brkAllow : Bool
+  oq : String := ""        -- "goexit" / "nilpanic": an exit of the body outside the property's quantifier
   deriving Repr
 
 def parseOp (op : List String) : Option Op :=
@@ -173,7 +175,10 @@ def parseOp (op : List String) : Option Op :=
     let en ← parseEnd (← kv? rest "end")
     let brk ← (match (← kv? rest "brk") with
       | "allow" => some true | "reject" => some false | _ => none)
-    pure { api := api, f := { begin := bg, commit := cm, rollback := rb }, b := { stmts := st, fin := en }, brkAllow := brk }
+    let oq := (match (← kv? rest "end") with
+      | "goexit" => "goexit" | "panicnil1" => "nilpanic" | _ => "")
+    pure { api := api, f := { begin := bg, commit := cm, rollback := rb }, b := { stmts := st, fin := en },
+           brkAllow := brk, oq := oq }
   | _ => none
 
 def isBreakerReject (r : Result) : Bool :=
@@ -191,6 +196,22 @@ def runSection (r : Report) (s : Section) : Report := Id.run do
     | some op =>
       r := { r with ops := r.ops + 1 }
       let impl := joinSp l.obs
+      -- exits outside the quantifier (Goexit, nil panic under GODEBUG=panicnil=1): informational. The code
+      -- either commits (recover() != nil saw nothing) or rolls back (completion flag); both are followed.
+      let envOq : Env := { ctxDone := op.api == "ctxdone", brkAllow := op.brkAllow,
+                           connOk := via != "namedbad", userAccept := accept == "user" }
+      if op.oq != "" && (via == "onconn" || envOq.admitted) && op.f.begin && (runStmts 0 op.b.stmts).2.isNone
+          && kvStr l.obs "ret" "?" != "is:breaker/says:-" then
+        let lg := kvStr l.obs "log" "?"
+        let bd := kvStr l.obs "body" "?"
+        let mc := transactOnConn op.f { op.b with fin := .ok }
+        let mr := transactOnConn op.f { op.b with fin := .panic }
+        if bd != op.oq || kvStr l.obs "runs" "?" != "1" then
+          r := r.mismatch s.idx l.idx s!"body={op.oq} runs=1" impl
+        else if lg == renderLog mc.log then r := r.addCover s!"outside-quantifier-{op.oq}-COMMITTED"
+        else if lg == renderLog mr.log then r := r.addCover s!"outside-quantifier-{op.oq}-rolled-back"
+        else r := r.mismatch s.idx l.idx s!"log={renderLog mc.log} or log={renderLog mr.log}" impl
+        continue
       match parseObs l.obs with
       | none =>
         -- e.g. the call panicked out of Transact: not explainable by the model, and a violation of
